@@ -405,6 +405,10 @@ def battery():
     for a_name, a in (("flat", FA), ("nested", NA)):
         for b_name, b in (("flat", FA), ("nested", NA)):
             cases.append(("array_%s_then_%s" % (a_name, b_name), [a(["a", "b"]), b(["b", "c", "c"])], "/diagnostics/disable"))
+    # array items that are not strings are de-duplicated like any other value
+    lib = {"path": "lib", "ignoreDir": ["x"]}
+    cases.append(("array_of_objects", [{"workspace": {"library": [lib]}}, {"workspace.library": [lib, "other"]}], "/workspace/library"))
+    cases.append(("array_of_numbers", [{"a": {"b": [1, 2, None, True]}}, {"a.b": [2, 3, None, True, [1]]}, {"a": {"b": [[1], 3]}}], "/a/b"))
     cases.append(("triple_mixed", [F(True), N(False), F(True)], "/diagnostics/enable"))
     cases.append(("triple_mixed2", [N(True), F(False), N(False)], "/diagnostics/enable"))
     cases.append(("deep_flat_then_nested", [{"runtime.version": "Lua5.1"}, {"runtime": {"version": "Lua5.4"}}], "/runtime/version"))
@@ -443,16 +447,16 @@ def run_battery():
                 return None, r["error"], sc
             for x in r.get("results", []):
                 if x["id"] == cid:
-                    got += [json.dumps(v) for v in x["values"]]
-        if set(got) != {json.dumps(want)}:
+                    got += [json.dumps(v, sort_keys=True) for v in x["values"]]
+        if set(got) != {json.dumps(want, sort_keys=True)}:
             bad.append({"id": cid, "docs": docs, "pointer": ptr, "expected": want, "loaded": sorted(set(got))})
     for cid, files, ptr, want in FILE_CASES:
         got = []
         for r in runs:
             for x in r.get("results", []):
                 if x["id"] == cid:
-                    got += [json.dumps(v) for v in x["values"]]
-        if set(got) != {json.dumps(want)}:
+                    got += [json.dumps(v, sort_keys=True) for v in x["values"]]
+        if set(got) != {json.dumps(want, sort_keys=True)}:
             bad.append({"id": cid, "files": files, "pointer": ptr, "expected": want, "loaded": sorted(set(got))})
     return bad, None, sc
 
